@@ -455,8 +455,9 @@ impl Check for C05 {
             if !tier.thorough() && seq.len() >= max_len(tier) && consumers > 1 {
                 return true;
             }
-            // quick tier: the namespaced keys (text-like constant next to a symbolic word) in sequences one token shorter
-            if !tier.thorough() && seq.len() >= max_len(tier) && seq.iter().any(|t| matches!(t, Tk::NamespacedKeyCaller | Tk::NamespacedKeyCdl)) {
+            // the namespaced keys (text-like constant next to a symbolic word) in sequences one token shorter (both tiers:
+            // at the maximal length they alone would more than double the thorough tier's running time)
+            if seq.len() >= max_len(tier) && seq.iter().any(|t| matches!(t, Tk::NamespacedKeyCaller | Tk::NamespacedKeyCdl)) {
                 return true;
             }
             // programs without any look-alike hash are only interesting for their dead code: one token shorter
@@ -490,7 +491,7 @@ impl Check for C05 {
              keccak(caller . 7), keccak(calldata . 8), keccak(bytes32(\"eternal.storage.balance.of\") . caller) and keccak(calldata . that text word) (a key whose preimage is only partly constant; a mapping at a text-like slot constant), keccak(7) + x, the literal keccak(7), a 160-bit mask, ADD, POP, DUP1, MSTORE, \
              LOG1, RETURN, CALLVALUE, the value passed as the argument data of STATICCALL / DELEGATECALL / CALL, as CREATE init code, as \
              REVERT payload, hashed again, used as an address, zero-tested, compared, used as a branch condition, a JUMP beyond the code and the unassigned bytes 0x5c / 0x5d with load / store operands (everything behind them, storage instructions included, is dead), a jump into the partial data of a trailing PUSH10 that spells a store, and the real accesses SLOAD(1), SSTORE(2), SSTORE / SLOAD with the key taken from the stack. \
-             (Quick tier: sequences of the maximal length contain at most one consumer token, and sequences without a look-alike hash, or with a text-word key, are one token shorter.) Programs whose live part (up to the first jump that cannot succeed) executes no storage instruction must yield an empty layout. For mixed programs every layout index must lie in the over-approximated \
+             (Quick tier: sequences of the maximal length contain at most one consumer token, and sequences without a look-alike hash are one token shorter.) Sequences with a text-word key are one token shorter in both tiers. Programs whose live part (up to the first jump that cannot succeed) executes no storage instruction must yield an empty layout. For mixed programs every layout index must lie in the over-approximated \
              closure of the constants found in KEY sub-trees of the storage nodes of the execution result (constants, their keccak \
              pre-images below 10000, hashes of constant data, one constant addition). non-trivial = every such program (each contains a \
              look-alike hash); distinct by program. Second family: all stack-safe sequences <= {} over the {} mask-and-shift tokens of C12 \
